@@ -1,4 +1,4 @@
-// Unit V-SWGAQ: the expansion of serde_workaround! for ctap2::get_assertion::Request -- serves C13
+// Unit V-SWMCQ: the expansion of serde_workaround! for ctap2::make_credential::Request -- serves C13
 // The code below the `source-expanded` line is what rustc expands the macro invocation in passkey-types to, on this run.
 #![allow(unused)]
 use vstd::prelude::*;
@@ -9,16 +9,16 @@ verus! {
 use serde::{Serialize, ser::SerializeMap};
 pub struct Options { pub rk: bool, pub up: bool, pub uv: bool }
 impl serde::SerView for Options { open spec fn ser_view(&self) -> SerTree { ser_of(*self) } }
-// ---- the statement of C13 for this message: CTAP 2.1, 6.2 authenticatorGetAssertion, request parameters
-// rp_id 0x01, client_data_hash 0x02, allow_list 0x03 (optional), extensions 0x04 (optional), options 0x05, pin_auth 0x06 (optional), pin_protocol 0x07 (optional)
+// ---- the statement of C13 for this message: CTAP 2.1, 6.1 authenticatorMakeCredential, request parameters
+// client_data_hash 0x01, rp 0x02, user 0x03, pub_key_cred_params 0x04, exclude_list 0x05 (optional), extensions 0x06 (optional), options 0x07, pin_auth 0x08 (optional), pin_protocol 0x09 (optional)
 pub open spec fn ctap_entries(q: Request) -> Seq<(SerTree, SerTree)> {
-    entry(1, q.rp_id) + entry(2, q.client_data_hash) + opt_entry(3, q.allow_list) + opt_entry(4, q.extensions) + entry(5, q.options) + opt_entry(6, q.pin_auth) + opt_entry(7, q.pin_protocol)
+    entry(1, q.client_data_hash) + entry(2, q.rp) + entry(3, q.user) + entry(4, q.pub_key_cred_params) + opt_entry(5, q.exclude_list) + opt_entry(6, q.extensions) + entry(7, q.options) + opt_entry(8, q.pin_auth) + opt_entry(9, q.pin_protocol)
 }
 pub proof fn lemma_ctap_entries_ascending(q: Request) ensures keys_ascending(ctap_entries(q)) { }
 // what the two expanded Serialize impls are to produce (the statement of C13)
 impl serde::SerView for Ident { open spec fn ser_view(&self) -> SerTree { SerTree::U8(*self as u8) } }
 impl serde::SerView for Request { open spec fn ser_view(&self) -> SerTree { SerTree::Map(Some(ctap_entries(*self).len() as usize), ctap_entries(*self)) } }
-//@ source-expanded sw passkey-types passkey-types ctap2::get_assertion Request
+//@ source-expanded sw passkey-types passkey-types ctap2::make_credential Request
 //@ extract sw struct Request
 //@ extract sw fn struct_len
 //@ extract sw enum Ident
